@@ -13,7 +13,7 @@ def main():
     import contracts
     R = Registry(); R.tasks = []
     for m in contracts.ALL:
-        importlib.import_module('contracts.' + m).register(R)
+        mod = importlib.import_module('contracts.' + m); getattr(mod, '_reg_all', mod.register)(R)
     eng = Engine(repo, R)
     verbose = '-t' in sys.argv
     if '-q' in sys.argv:
